@@ -43,6 +43,17 @@ def recorded(chk, n):
                       dict(family="regrec", seed=chk.seed, n=n, line=bad))
 
 
+def regpaths(chk):
+    """the path a route gets inside nested groups, with and without StrictLastSlash (RuxPath.RegPath, the function RuxReg uses)"""
+    from . import c11
+    r = c11.mc(chk, "text", 4 if chk.tier == "thorough" else 3, 2, 1, ["/", "a", "."])
+    chk.expect_holds(r, "RegPath laws")
+    chk.add_tlc(r, "registered paths: all route texts <=%d and prefix lists <=2 over {/, a, .}, strict and not" % (4 if chk.tier == "thorough" else 3))
+    cases = os.path.join(core.scratch(), "regpath-cases.ndjson")
+    core.write_ndjson(cases, r.lines)
+    chk.absorb(core.run_harness(["path", "replay", cases], timeout=3000), "path", only={"regpath", "panic"})
+
+
 def negs(chk, which):
     for sw in which:
         r = core.run_tlc("MC_Reg", cfg_text=rcfg(4, 2, 2, emit=False, **{sw: True}), timeout=600)
@@ -56,6 +67,7 @@ def run(chk):
         "middleware) / Route.Use; Group realised as Group and as Controller; clean non-root prefixes",
         "handlers identified by <<statement, index>>; one request per route, log of enters and leaves compared",
     ]
+    regpaths(chk)
     if thorough:
         explore(chk, 5, 3, 3)
     else:
